@@ -527,7 +527,13 @@ class StationMaxListener(Listener):
         # Override to disable the computation when the object is not
         # in view of the station
         orb2 = orb.copy(frame=self.station, form="spherical")
-        if orb2.phi <= 0 or orb2.phi_dot > 0:
+
+        # A maximum is a change of the elevation rate from positive to negative
+        # with time: when iterating backward the current sample is the earliest
+        backward = self.prev is not None and orb.date < self.prev.date
+        before_max = orb2.phi_dot < 0 if backward else orb2.phi_dot > 0
+
+        if orb2.phi <= 0 or before_max:
             return False
         else:
             return super().check(orb)
